@@ -232,8 +232,12 @@ func (self *AofFile) Open() error {
 		} else if self.size < 12 {
 			err = self.file.Truncate(0)
 			if err == nil {
+				self.size = 0
 				err = self.WriteHeader()
 			}
+		} else if (self.size-12)%64 != 0 {
+			self.size -= (self.size - 12) % 64
+			err = self.file.Truncate(int64(self.size))
 		} else {
 			err = nil
 		}
@@ -271,6 +275,9 @@ func (self *AofFile) ReadHeader() error {
 		return err
 	}
 	if n != 12 {
+		if n < 12 && string(buf[:n]) == "SLOCKAOF\x01\x00\x00\x00"[:n] {
+			return io.EOF
+		}
 		return errors.New("File is not AOF FIle")
 	}
 	if string(buf[:8]) != "SLOCKAOF" {
@@ -322,16 +329,16 @@ func (self *AofFile) ReadLock(lock *AofLock) error {
 		return err
 	}
 
-	lockLen := uint16(buf[0]) | uint16(buf[1])<<8
-	if n != int(lockLen)+2 {
+	for n < 64 {
 		nn, nerr := self.rbuf.Read(buf[n:64])
 		if nerr != nil {
-			return err
+			return nerr
 		}
 		n += nn
-		if n != int(lockLen)+2 {
-			return errors.New("Lock Len error")
-		}
+	}
+	lockLen := uint16(buf[0]) | uint16(buf[1])<<8
+	if n != int(lockLen)+2 {
+		return errors.New("Lock Len error")
 	}
 
 	self.size += 2 + int(lockLen)
